@@ -219,7 +219,8 @@ def resolve(rules, path):
 
 # ---- generators -----------------------------------------------------------------------------------------------------
 
-WILD_VALUES = ['', 'a', 'ab', '1', '-1', '1.5', 'a/b', 'ü', '\r', 'a\rb', 'aa', '12', 'a/b/by/c', '7/by/8', '5.', '.5']
+WILD_VALUES = ['', 'a', 'ab', '1', '-1', '1.5', 'a/b', 'ü', '\r', 'a\rb', 'aa', '12', 'a/b/by/c', '7/by/8', '5.', '.5',
+               '\u0663']           # ARABIC-INDIC DIGIT THREE: a digit for \d, int() and float() alike
 
 
 REX_VALUES = ['img', 'doc', 'raw', 'imgdoc', 'b-7', 'ab-12', 'do']
